@@ -25,6 +25,9 @@ type ErrSite struct {
 	Call   ssa.CallInstruction
 	Callee *types.Func
 	Err    ssa.Value // nil when the error result is discarded
+	// Param: the "site" is an error parameter of Fn (Call is nil, Err the
+	// parameter): the paths start at the function's entry
+	Param bool
 }
 
 // ErrSites finds the calls in fns whose callee satisfies isSource and returns
@@ -251,6 +254,18 @@ func (p *Program) CheckErrEscape(site ErrSite, pol ErrPolicy) EscapeVerdict {
 			if obj := CalleeObj(cc); obj != nil && pol.IsSink != nil && pol.IsSink(obj, cc) {
 				return true
 			}
+			// the error is handed to a keto function that takes care of it itself: on
+			// every path on which its parameter is non-nil it returns it, stores it in
+			// a result or hands it to a sink (a helper the handling was extracted into)
+			if callee := cc.StaticCallee(); callee != nil && callee.Blocks != nil && !cc.IsInvoke() {
+				if pk := FuncPkg(callee); pk != nil && IsKeto(pk) {
+					for i, a := range cc.Args {
+						if isD(a) && i < len(callee.Params) && isErrType(callee.Params[i].Type()) && p.paramErrHandled(callee, i, pol) {
+							return true
+						}
+					}
+				}
+			}
 		}
 		return false
 	}
@@ -287,12 +302,14 @@ func (p *Program) CheckErrEscape(site ErrSite, pol ErrPolicy) EscapeVerdict {
 			}
 		}
 	}
-	// start right after the call
-	startB := site.Call.Block()
-	startI := 0
-	for i, ins := range startB.Instrs {
-		if ins == site.Call.(ssa.Instruction) {
-			startI = i + 1
+	// start right after the call (at the entry for a parameter)
+	startB, startI := fn.Blocks[0], 0
+	if !site.Param {
+		startB = site.Call.Block()
+		for i, ins := range startB.Instrs {
+			if ins == site.Call.(ssa.Instruction) {
+				startI = i + 1
+			}
 		}
 	}
 	handledBlocks := map[*ssa.BasicBlock]bool{}
@@ -305,8 +322,19 @@ func (p *Program) CheckErrEscape(site ErrSite, pol ErrPolicy) EscapeVerdict {
 			return 1
 		}
 		// entering a deliberately-handled region counts as handled
-		if b := ins.Block(); handledBlocks[b] && len(b.Instrs) > 0 && b.Instrs[0] == ins && len(b.Preds) == 1 {
-			return 1
+		if b := ins.Block(); handledBlocks[b] && len(b.Preds) == 1 {
+			// the first instruction of the block that is reported as an event
+			// (PathCountFrom keeps Defer and RunDefers to itself)
+			for _, first := range b.Instrs {
+				switch first.(type) {
+				case *ssa.Defer, *ssa.RunDefers:
+					continue
+				}
+				if first == ins {
+					return 1
+				}
+				break
+			}
 		}
 		return 0
 	}
@@ -319,15 +347,15 @@ func (p *Program) CheckErrEscape(site ErrSite, pol ErrPolicy) EscapeVerdict {
 	for ret, iv := range res {
 		if iv.Lo < 1 {
 			pos := ret.Pos()
-			if !pos.IsValid() {
+			if !pos.IsValid() && site.Call != nil {
 				pos = site.Call.Pos()
 			}
 			return EscapeVerdict{OK: false, Escapes: escapes, BadPos: pos,
-				Detail: "a path on which the error of " + ObjName(site.Callee) + " is non-nil reaches this return without the error being returned, stored in a result, or handed to an error sink"}
+				Detail: "a path on which the error of " + siteName(site) + " is non-nil reaches this return without the error being returned, stored in a result, or handed to an error sink"}
 		}
 	}
 	if len(res) == 0 && len(escapes) == 0 {
-		return EscapeVerdict{OK: false, Detail: "no return reachable and no escape of the error found", BadPos: site.Call.Pos()}
+		return EscapeVerdict{OK: false, Detail: "no return reachable and no escape of the error found", BadPos: fn.Pos()}
 	}
 	return EscapeVerdict{OK: true, Escapes: escapes, Detail: fmt.Sprintf("every non-nil path escapes (%d return paths)", len(res))}
 }
@@ -381,4 +409,35 @@ func storeReachesLoad(st *ssa.Store, a *ssa.Alloc, ld *ssa.UnOp) bool {
 		work = append(work, b.Succs...)
 	}
 	return false
+}
+
+// paramErrHandled: does callee take care of its error parameter idx on every
+// path on which it is non-nil (CheckErrEscape from the entry)? Memoised;
+// recursion counts as "no".
+func (p *Program) paramErrHandled(callee *ssa.Function, idx int, pol ErrPolicy) bool {
+	key := fmt.Sprintf("%p/%d", callee, idx)
+	if p.errParam == nil {
+		p.errParam = map[string]int{}
+	}
+	switch p.errParam[key] {
+	case 1:
+		return true
+	case 2, 3:
+		return false // 3: in progress
+	}
+	p.errParam[key] = 3
+	v := p.CheckErrEscape(ErrSite{Fn: callee, Err: callee.Params[idx], Param: true}, pol)
+	if v.OK {
+		p.errParam[key] = 1
+	} else {
+		p.errParam[key] = 2
+	}
+	return v.OK
+}
+
+func siteName(site ErrSite) string {
+	if site.Param || site.Callee == nil {
+		return "parameter " + site.Err.Name()
+	}
+	return ObjName(site.Callee)
 }
